@@ -130,6 +130,32 @@ func newPackage(program *loader.Program, pkgInfo *loader.PackageInfo, plugins []
 		}
 		reserved[name] = struct{}{}
 	}
+	// So are the names under which the files of the package import other packages, and what a dot import brings along:
+	// a function of the package cannot bear one of them either.
+	for _, file := range pkgInfo.Files {
+		for _, spec := range file.Imports {
+			var pkgName *types.PkgName
+			if spec.Name != nil {
+				pkgName, _ = pkgInfo.Defs[spec.Name].(*types.PkgName)
+			} else {
+				pkgName, _ = pkgInfo.Implicits[spec].(*types.PkgName)
+			}
+			if pkgName == nil {
+				continue
+			}
+			switch pkgName.Name() {
+			case "_":
+			case ".":
+				for _, name := range pkgName.Imported().Scope().Names() {
+					if token.IsExported(name) {
+						reserved[name] = struct{}{}
+					}
+				}
+			default:
+				reserved[pkgName.Name()] = struct{}{}
+			}
+		}
+	}
 	// The name of a call that still waits for the type of an argument is spoken for as well:
 	// a function that is made up in this pass and took that name would be the one the call resolves to after the reload.
 	for _, fileInfo := range fileInfos {
